@@ -214,7 +214,12 @@ impl PatchIndexHeader {
         if extra_len > 0 {
             out.push(self.key_size);
             if self.key_size > 0 {
-                out.extend_from_slice(&self.key_data[..self.key_size as usize]);
+                // `parse` keeps the first 16 key bytes and skips the rest of a
+                // longer key: write the kept bytes and zero-fill the remainder
+                // so the extra header keeps the length it announces
+                let kept = (self.key_size as usize).min(self.key_data.len());
+                out.extend_from_slice(&self.key_data[..kept]);
+                out.resize(out.len() + self.key_size as usize - kept, 0);
             }
             out.extend_from_slice(&self.extra_data);
         }
